@@ -163,7 +163,7 @@ class dhcp(packet_base):
         elif self.chaddr is not None:
             s += ' '.join(["{0:02x}".format(x) for x in self.chaddr])
         s += ' magic:'+' '.join(
-            ["{0:02x}".format(ord(x)) for x in self.magic])
+            ["{0:02x}".format(x) for x in self.magic])
         #s += ' options:'+' '.join(["{0:02x}".format(ord(x)) for x in
         #                          self._raw_options])
         if len(self.options):
@@ -245,7 +245,7 @@ class dhcp(packet_base):
         ofs = 0;
         l = len(barr)
         while ofs < l:
-            opt = ord(barr[ofs])
+            opt = barr[ofs]
             if opt == dhcp.END_OPT:
                 return
             ofs += 1
@@ -254,7 +254,7 @@ class dhcp(packet_base):
             if ofs >= l:
                 self.warn('DHCP option ofs extends past segment')
                 return
-            opt_len = ord(barr[ofs])
+            opt_len = barr[ofs]
             ofs += 1         # Account for the length octet
             if ofs + opt_len > l:
                 return False
@@ -484,7 +484,7 @@ class DHCPMsgTypeOption (DHCPOption):
   def unpack (cls, data, code = None):
     self = cls()
     if len(data) != 1: raise RuntimeError("Bad option length")
-    self.type = ord(data[0])
+    self.type = data[0]
     return self
 
   def pack (self):
@@ -552,7 +552,7 @@ class DHCPOptionOverloadOption (DHCPOption):
   def unpack (cls, data, code = None):
     self = cls()
     if len(data) != 1: raise RuntimeError("Bad option length")
-    self.value = ord(data[0])
+    self.value = data[0]
     return self
 
   def pack (self):
@@ -585,7 +585,7 @@ class DHCPParameterRequestOption (DHCPOption):
   @classmethod
   def unpack (cls, data, code = None):
     self = cls()
-    self.options = [ord(x) for x in data]
+    self.options = list(data)
     return self
 
   def pack (self):
